@@ -297,7 +297,7 @@ func (ci *crdIpam) NodeSubnetsByIPRanges(ipranges [][]nets.IPRange) (sets.String
 		insertSubnet(poolIndexSet, subnetSet)
 		return subnetSet, nil
 	}
-	for _, ranges := range ipranges {
+	for i, ranges := range ipranges {
 		poolIndexSet := sets.NewInt()
 		walkIPRanges(ranges, func(ip net.IP) bool {
 			ipStr := ip.String()
@@ -313,7 +313,7 @@ func (ci *crdIpam) NodeSubnetsByIPRanges(ipranges [][]nets.IPRange) (sets.String
 			glog.V(3).Infof("no enough ips for ip range %v", ranges)
 			return sets.NewString(), nil
 		}
-		if subnetSet.Len() == 0 {
+		if i == 0 {
 			insertSubnet(poolIndexSet, subnetSet)
 		} else {
 			partset := sets.NewString()
